@@ -2,18 +2,18 @@ SPECIFICATION GSpec
 CONSTANTS
   Nodes = {"A", "B"}
   Order <- OrderAB
-  ModsOf <- ModsAB
-  Params = {"value", "sp"}
+  ModsOf <- ModsColl
+  Params = {"value"}
   Values = {1, 2}
   UpErrs = {"hw"}
-  Conns = {"c1", "c2"}
+  Conns = {"c1"}
   StartDown = {}
   ReqArgs <- OneArg
   ReqConns <- OneConn
   WaitSteps = {2, 12}
   ReadErrChoice = {TRUE, FALSE}
   GiveUpErrChoice = {TRUE, FALSE}
-  Depth = 3
+  Depth = 4
   Thin = 1
 CONSTRAINT Bound
 ACTION_CONSTRAINT EmitStep
